@@ -290,6 +290,9 @@ func RunC17Synth(r *report.Run, b Bins, tier string, seed int64) {
 				r.Violate("binding:synth", m, map[string]any{"definition": c.Desc})
 			}
 			r.Eval("synth|"+c.Desc, true)
+			if i < 2 {
+				r.Sample(map[string]any{"kind": "synthesized-binding", "definition": c.Desc, "binding_mismatches": len(bad)})
+			}
 			r.Count("methods_bound", int64(countMethods(protos[0])))
 		}
 	}
